@@ -1381,6 +1381,24 @@ func reloadFacts(f *facts) {
 
 // ---- C18 / C19: stop path and metric call sites ----
 func stopFacts(f *facts) {
+	f.note["stop_run_order"] = "run.Run after the stop signal: the calls that end the agent, in order (inputs first, then the pipelines, the metrics listener last: nothing unbounded may run before the data is safe)"
+	var ro []string
+	if fd := fn("run/run.go", "Run", ""); fd != nil {
+		seenSignal := false
+		inspect(fd.Body, func(n ast.Node) bool {
+			if c, ok := n.(*ast.CallExpr); ok {
+				t := src(c.Fun)
+				if t == "signal.Notify" {
+					seenSignal = true
+				}
+				if seenSignal && (t == "shutdownInputs" || strings.HasSuffix(t, ".Shutdown")) {
+					ro = append(ro, t)
+				}
+			}
+			return true
+		})
+	}
+	f.strs["stop_run_order"] = ro
 	const sess = "output/baseoutput/clientsession.go"
 	const work = "output/baseoutput/clientworker.go"
 	f.note["stop_client_selects"] = "per function: 1 if every select statement has a case on inputClosed / a closed-channel check of inputChannel, else 0"
